@@ -158,7 +158,12 @@ def run(ctx):
     rpp = vlib.compile_harness(os.path.join(vlib.VERIF, "harness/pool_replay.cpp"), "pool_replay", extra_flags=["-rdynamic"])
     for k, (script, nw) in enumerate([(["co", "fn", "stop"], 1), (["det", "stop", "fn", "co"], 2), (["fn", "wst", "co"], 2)]):
         c11.run_script(ctx, rpp, script, nw, "lockp%d" % k, 300 if ctx.quick else 3000)
+    # scheduler in thread mode (client thread vs. the scheduler's own worker; virtual clock): same argument
+    from checks import c12thread
+    rps = c12thread.build()
+    for k, sc in enumerate(c12thread.SCRIPTS[3:6] if ctx.quick else c12thread.SCRIPTS[1:] + c12thread.SCRIPTS_MORE[:2]):
+        c12thread.run_script(ctx, rps, sc, "locks%d" % k, True, 300 if ctx.quick else 3000)
     ctx.assume("view-based RA+relaxed model (no load-buffering / out-of-thin-air executions), writes appended to the modification order, <= 7 messages per location, 2 threads per scenario")
     ctx.assume("plain accesses are where the WMM scenario programs place them (transcribed from the code); compiler transformations are trusted")
-    ctx.assume("lock-based components: queue and thread_pool are bound by lock-grain replay (a moved/removed/added lock operation or a guarded "
-               "state change after the unlock diverges); scheduler and publisher lock discipline is not decided by this check")
+    ctx.assume("lock-based components: queue, thread_pool and scheduler (thread mode) are bound by lock-grain replay (a moved/removed/added lock "
+               "operation or a guarded state change after the unlock diverges); publisher lock discipline is not decided by this check")
